@@ -710,6 +710,14 @@ func init() {
 			}
 			se.Stubs = map[string]interceptFn{repoModule + "/internal/transfer.readAtWithPool": stubReadAtDirect}
 			js = append(js, se)
+			fl := hj("C17.files", "H_C17_files", "real sender, three files on two slots: each begun once, ended once, every chunk on a stream once (canonical schedule, one timer event; thorough: plus one preemption)")
+			fl.Threads, fl.Workers, fl.MaxPaths = true, 16, 5000000
+			fl.TimerBudget, fl.CanonicalBlock, fl.Preempt, fl.BlockedOK = 1, true, 0, true
+			if tier == "thorough" {
+				fl.Preempt = 1
+			}
+			fl.Stubs = map[string]interceptFn{repoModule + "/internal/transfer.readAtWithPool": stubReadAtDirect}
+			js = append(js, fl)
 			return js
 		},
 	})
